@@ -42,24 +42,30 @@ def skipSpaces : Bytes → Nat → Bytes × Nat
   | [], n => ([], n)
   | c :: cs, n => if Bytes.isSpace c then skipSpaces cs (n + 1) else (c :: cs, n)
 
+/-- optional sign: (negative?, rest, index) -/
+def signPart (r : Bytes) (i : Nat) : Bool × Bytes × Nat :=
+  match r with
+  | 45 :: t => (true, t, i + 1)
+  | 43 :: t => (false, t, i + 1)
+  | _ => (false, r, i)
+
+/-- optional 0x / 0X when base 16 and a hex digit follows -/
+def prefixPart (base : Nat) (r : Bytes) (i : Nat) : Bytes × Nat :=
+  if base = 16 then
+    match r with
+    | 48 :: x :: d :: t =>
+      if (x == 120 || x == 88) && (digitIn 16 d).isSome then (d :: t, i + 2) else (r, i)
+    | _ => (r, i)
+  else (r, i)
+
 /-- common front end of strtol/strtoul: returns (negative?, magnitude, index just past
     the number) — index 0 and magnitude 0 when there are no digits. -/
 def scanNumber (base : Nat) (s : Bytes) : Bool × Nat × Nat :=
-  let (r, i) := skipSpaces s 0
-  let (neg, r, i) := match r with
-    | 45 :: t => (true, t, i + 1)
-    | 43 :: t => (false, t, i + 1)
-    | _ => (false, r, i)
-  -- optional 0x / 0X when base 16 and a hex digit follows
-  let (r, i) :=
-    if base = 16 then
-      match r with
-      | 48 :: x :: d :: t =>
-        if (x == 120 || x == 88) && (digitIn 16 d).isSome then (d :: t, i + 2) else (r, i)
-      | _ => (r, i)
-    else (r, i)
-  let (v, n) := accDigits base r 0 0
-  if n = 0 then (false, 0, 0) else (neg, v, i + n)
+  let sk := skipSpaces s 0
+  let sg := signPart sk.1 sk.2
+  let pf := prefixPart base sg.2.1 sg.2.2
+  let ac := accDigits base pf.1 0 0
+  if ac.2 = 0 then (false, 0, 0) else (sg.1, ac.1, pf.2 + ac.2)
 
 /-- `strtol(s, &end, base)`: (value saturated to `long`, end index) -/
 def strtol (base : Nat) (s : Bytes) : Int × Nat :=
